@@ -49,6 +49,9 @@ func (c14) Gen(rs uint64, tier string, race bool) interface{} {
 	n := 1 + r.Intn(7)
 	l := 1 + r.Intn(10)
 	lower := r.Chance(0.25)
+	if r.Chance(0.05) {
+		n = r.Range(8, 26) // enough rows for a column to hold more kinds of characters than the alphabet has letters
+	}
 	tall := r.Chance(0.004)
 	if tall {
 		// many rows: counts around the capacity of a byte (a character carried 255, 256, 257 ... times in a column)
@@ -59,7 +62,15 @@ func (c14) Gen(rs uint64, tier string, race bool) interface{} {
 	for k := range cols {
 		col := make([]byte, n)
 		var pal []byte
-		switch r.Intn(12) {
+		switch r.Intn(13) {
+		case 12:
+			// a column with more kinds of characters than the alphabet has letters (ambiguity codes, N / X, both cases)
+			pal = []byte(core + string(all) + "RYKM")
+			if len(core) == 4 {
+				pal = append(pal, "acgtn"...)
+			} else {
+				pal = append(pal, "BZarndcq"...)
+			}
 		case 0:
 			pal = []byte{'-'}
 		case 1:
